@@ -42,7 +42,11 @@ type FreshSpec struct {
 	Network string `json:"network"`
 	Amounts []int  `json:"amounts,omitempty"` // ETH, only v1.8+
 	Name    string `json:"name,omitempty"`
+	// ZeroWithdrawal sets every withdrawal address to the zero address (v1.5+).
+	ZeroWithdrawal bool `json:"zero_withdrawal,omitempty"`
 }
+
+const zeroAddr = "0x0000000000000000000000000000000000000000"
 
 // freshLock builds a fully valid, fully signed lock of the given version: cluster.NewForT (operator
 // and creator EIP-712 signatures, builder registrations, aggregate and node signatures) extended
@@ -71,6 +75,11 @@ func freshLock(t *testing.T, sp FreshSpec) (cluster.Lock, []*k1.PrivateKey, [][]
 			}
 			if vi >= vnum("v1.9.0") {
 				d.ConsensusProtocol = "qbft"
+			}
+			if sp.ZeroWithdrawal {
+				for i := range d.ValidatorAddresses {
+					d.ValidatorAddresses[i].WithdrawalAddress = zeroAddr
+				}
 			}
 		},
 	}
